@@ -720,6 +720,10 @@ func (c *EvalCtx) evalCall(e *Expr) TVal {
 		n := map[string]string{"strindex": "str_Index", "strlastindex": "str_LastIndex"}[e.Name]
 		w.declFun(n, fmt.Sprintf("(declare-fun %s (Int Int) Int)", n))
 		return c.mk("("+n+" "+sv.T+" "+sub.T+")", sInt, ti)
+	case "u64":
+		// u64(x): x reduced to the 64-bit unsigned range, as Go's uint64 arithmetic does
+		v := c.eval(e.Args[0])
+		return c.mk("(mod "+v.T+" 18446744073709551616)", sInt, v.Type)
 	case "nolocks":
 		// the calling goroutine holds no lock at all
 		return c.mk("(= "+fr.heapCur(c.st, w.HeldHeap())+" ((as const (Array Int Int)) 0))", sBool, tb)
